@@ -242,8 +242,13 @@ def check(ctx, replay=None):
                 mp = tp and method_marker(b, f"T{c['k']}", f"orig{c['k']}m") in open(tf).read()
                 if b == "demo_gen":
                     goals.append(f"agree_canary_method {cstr(b)} {cpl} ({coq_f(f)}, PDisable) (Some {cbool(mp)})")
+                    goals.append(f"match snd (canary \"js\" {cpl} ({coq_f(f)}, PDisable)) with Some _ => true | None => false end"); meta.append((c, b))
                 else:
                     goals.append(f"agree_canary {cstr(b)} {cpl} ({coq_f(f)}, PDisable) (Some {cbool(tp)}) (Some {cbool(mp)})")
+            elif cls == "lowering-error" and b == "demo_gen":
+                # without a configured module the demo_gen run also generates the JS bindings: the condition is evaluated under both
+                # support profiles, and an error under either one fails the run (conditions short-circuit, so they can differ)
+                goals.append(f"match snd (canary \"demo_gen\" {cpl} ({coq_f(f)}, PDisable)), snd (canary \"js\" {cpl} ({coq_f(f)}, PDisable)) with Some _, Some _ => false | _, _ => true end")
             elif cls == "lowering-error":
                 goals.append(f"agree_canary {cstr(b)} {cpl} ({coq_f(f)}, PDisable) (match fst (canary {cstr(b)} {cpl} ({coq_f(f)}, PDisable)) with None => None | x => Some true end) None")
             else:
